@@ -26,12 +26,12 @@ Theorem C17_directions_are_solver_eigenvectors_up_to_sign : forall e vn, let r :
 Proof. exact post_directions_are_eigenvectors. Qed.
 Print Assumptions C17_directions_are_solver_eigenvectors_up_to_sign.
 
-(* curvature_tria: on a non-degenerate triangle whose projected direction is not lost, the two returned directions are
-   unit, orthogonal to each other and lie in the triangle plane (orthogonal to the triangle normal) *)
+(* curvature_tria: on every triangle that is not degenerate (normal and first edge longer than the code's 1e-8 guard) the two
+   returned directions are unit, orthogonal to each other and lie in the triangle plane, whatever direction was pooled from the
+   vertices (after fix f3ef02f: fall-back to the first edge when the pooled direction has no component in the plane) *)
 Theorem C17_triangle_frame_in_plane : forall p0 p1 p2 tumin,
   let tn0 := cross Rops (vsub Rops p1 p0) (vsub Rops p2 p0) in
-  tiny8 Rops <= norm Rops tn0 ->
-  (let tn := vdivs Rops tn0 (norm Rops tn0) in tiny8 Rops <= norm Rops (vsub Rops tumin (vscale Rops (dot Rops tn tumin) tn))) ->
+  tiny8 Rops <= norm Rops tn0 -> tiny8 Rops <= norm Rops (vsub Rops p1 p0) ->
   let '(u, w) := tria_frame Rops p0 p1 p2 tumin in
   dot Rops u u = 1 /\ dot Rops w w = 1 /\ dot Rops u w = 0 /\ dot Rops u tn0 = 0 /\ dot Rops w tn0 = 0.
 Proof. exact tria_frame_in_plane. Qed.
